@@ -145,6 +145,10 @@ class World:
         tr.add_events(list(self.events))
         if cfg["space"] == "discrete":
             space = DiscretePortfolio([self.A, self.B], [[k / 16.0, 0.0] for k in range(N_ALLOC)])
+        elif cfg["space"] == "boxcash":
+            space = BoxPortfolio([impl.Cash(), self.A, self.B], low=0.0, high=1.0)
+        elif cfg["space"] == "boxlots":
+            space = BoxPortfolio([self.A, self.B], low=0.0, high=float(N_ALLOC), as_weights=False)
         else:
             space = BoxPortfolio([self.A, self.B], low=0.0, high=1.0)
         self.env = TradingEnv(action_space=space, state=[Rec(self.sink), RecX(self.sinkx)], transmitter=tr,
@@ -196,16 +200,29 @@ class World:
             self._wrap_broker()
         return out, val
 
+    def expected_alloc(self, j):
+        """allocation denoted by the j-th in-space action (0 = null action)"""
+        if j == 0 or not self.trade:
+            return {}
+        k = (j % (N_ALLOC - 1)) + 1
+        return {"A": float(k) if self.cfg["space"] == "boxlots" else k / 16.0}
+
     def action(self, act):
         j, cls = act["id"], act["cls"]
-        disc = self.cfg["space"] == "discrete"
-        w = ((j % (N_ALLOC - 1)) + 1) if self.trade else 0
-        if cls == "ok":
-            return int(w) if disc else np.array([w / 16.0, 0.0])
-        if disc:
+        sp = self.cfg["space"]
+        k = ((j % (N_ALLOC - 1)) + 1) if self.trade else 0
+        hi = float(N_ALLOC) if sp == "boxlots" else 1.0
+        unit = float(k) if sp == "boxlots" else k / 16.0
+        if sp == "discrete":
+            if cls == "ok":
+                return int(k)
             return {"shape": N_ALLOC, "above": N_ALLOC + 3, "below": -1, "nan": float("nan"), "index": 2.5}[cls]
-        return {"shape": np.array([0.25, 0.0, 0.0]), "above": np.array([1.5, 0.0]), "below": np.array([0.0, -0.25]),
-                "nan": np.array([float("nan"), 0.0]), "index": np.array([[0.25, 0.0]])}[cls]
+        lead = [0.5] if sp == "boxcash" else []
+        if cls == "ok":
+            return np.array(lead + [unit, 0.0])
+        return {"shape": np.array(lead + [unit, 0.0, 0.0]), "above": np.array(lead + [hi * 1.5, 0.0]),
+                "below": np.array(lead + [0.0, -0.25]), "nan": np.array(lead + [float("nan"), 0.0]),
+                "index": np.array([lead + [unit, 0.0]])}[cls]
 
     def step(self, act):
         self.sink.entries.clear()
@@ -325,12 +342,13 @@ def compare_call(w, rec, out, val, soft, track_before, pos_before):
             else:
                 got_x = w.sink.exec
                 if w.trade:
-                    a = got_x["alloc"].get("A", 0.0)
-                    exp_w = 0.0 if x["act"] == 0 else ((x["act"] % (N_ALLOC - 1)) + 1) / 16.0
-                    if abs(a - exp_w) > 1e-12 or set(got_x["alloc"]) - {"A"}:
-                        clause = "fifo"
-                        fails.append((clause, "executed allocation %s at step %s, spec: the action submitted %d step(s) "
-                                      "earlier (id %s, weight %s)" % (got_x["alloc"], x["call"], cfg["delay"], x["act"], exp_w)))
+                    exp_alloc = w.expected_alloc(x["act"])
+                    ga = got_x["alloc"]
+                    if set(ga) != set(exp_alloc) or any(abs(ga[c] - exp_alloc[c]) > 1e-12 for c in ga):
+                        msg = ("executed allocation %s at step %s, spec: the action submitted %d step(s) earlier "
+                               "(id %s) denotes %s" % (ga, x["call"], cfg["delay"], x["act"], exp_alloc))
+                        fails.append(("fifo", msg))
+                        fails.append(("allocation", msg))
                 if _secs(got_x["stamp"]) != x["stamp"]:
                     fails.append(("stamp", "execution stamped %s, latest event processed before it is %s" % (
                         _secs(got_x["stamp"]), x["stamp"])))
